@@ -51,6 +51,15 @@ Theorem C03_errwrap_q_err : forall err_text self en x zs vs e encl base tx tr re
               = (RRet (encl ++ [VErr (Some (EFrame e))]), en', tr ++ tx).
 Proof. exact quest_err. Qed.
 
+(* the same, seen from the caller of the enclosing function  func() (rs...) { <block>; rest }():
+   the call yields the zero values + NewFrame(err), the caller's environment is unchanged, and only
+   the wrapped expression has run *)
+Theorem C03_errwrap_q_err_function : forall err_text self en rs x zs vs e encl base tx tr rest,
+  length vs = length zs -> stable err_text self (rev rs ++ en) x (vs ++ [VErr (Some e)]) tx ->
+  ev err_text self (EClosure rs (SSeq (quest_prelude x zs encl base) rest)) en tr
+  = (RVal (encl ++ [VErr (Some (EFrame e))]), en, tr ++ tx).
+Proof. exact quest_err_function. Qed.
+
 (* the wrapped error keeps its root *)
 Theorem C03_frame_root : forall e, err_root (EFrame e) = err_root e.
 Proof. reflexivity. Qed.
@@ -101,6 +110,7 @@ Print Assumptions C03_errwrap_bang.
 Print Assumptions C03_errwrap_default.
 Print Assumptions C03_errwrap_q_ok.
 Print Assumptions C03_errwrap_q_err.
+Print Assumptions C03_errwrap_q_err_function.
 Print Assumptions C03_errwrap_eval_once.
 Print Assumptions C03_stable_callp.
 Print Assumptions C03_stable_pure.
